@@ -3,7 +3,7 @@ import json
 import os
 import re
 
-from .. import guards, common, extract, flow, paths
+from .. import guards, common, extract, flow, inline, paths
 from ..facts import callee_def, callee_resolved, short
 from ..model import load_model
 from ..report import AnchorMissing
@@ -57,12 +57,11 @@ def funnel_body_ok(db, body, depth=0, seen=None):
 def rule_r1(chk, db):
     roles = Roles(db)
     # role: the body that calls both `prepare`-like fn and a virtual Operation::call
-    cands = []
-    for b in db.grep("s3s::ops::Operation::call"):
-        if b.crate != "s3s":
-            continue
-        if any(t["callee"].get("trait") == roles.Operation and short(callee_def(t)) == "call" and t["callee"].get("virtual") for _, t in b.calls()):
-            cands.append(b)
+    def performs_call(b):
+        return any(t["callee"].get("trait") == roles.Operation and short(callee_def(t)) == "call" and t["callee"].get("virtual") for _, t in b.calls())
+    direct = [b for b in db.grep("s3s::ops::Operation::call") if b.crate == "s3s" and performs_call(b)]
+    # studied with its helper functions (sync or async) inlined, so that splitting ops::call into stages does not hide the funnel
+    cands = inline.roots_with(db, direct, performs_call)
     if len(cands) != 1:
         raise AnchorMissing("expected one body performing the virtual Operation::call, found %s" % [b.name for b in cands])
     body = cands[0]
